@@ -118,6 +118,8 @@ func applyStructOp(g geom.Geometry, act string, arg T) geom.Geometry {
 			return geom.NewMultiPolygon([]geom.Polygon{g.MustAsPolygon(), o.MustAsPolygon()}).AsGeometry()
 		}
 		panic("mkmulti on " + g.Type().String())
+	case "nop":
+		return g // the value itself is read back through every accessor (a value with a history keeps its representation)
 	case "viactor":
 		return viaCtor(g)
 	case "geojson":
@@ -290,6 +292,9 @@ func structOnPanic(c Case) Event {
 func structExec(c Case) Event {
 	start := asTree(c["start"])
 	g := buildTree(start)
+	if _, ok := c["hist"]; ok {
+		g = withHistory(g, c.num("hist")) // the same value with another internal representation (shared backing array, ...)
+	}
 	steps := []Event{}
 	_, sliver := c["sliver"] // rings a few ulps wide: the overlay operations are left to C01's domain
 	for _, s := range c.list("steps") {
@@ -365,6 +370,26 @@ func structGen(r *rand.Rand, n int, tier string, emit func(Case)) {
 			steps = append(steps, T{"act": act, "arg": arg})
 		}
 		c := Case{"start": start, "steps": steps}
+		if r.Intn(12) == 0 {
+			// a collection of lines with other members between them, rebuilt as windows of one backing array: reading it
+			// back (DumpCoordinates, Dump, Summary, ...) must not touch the neighbours' storage
+			ct := ctypes[r.Intn(4)]
+			ms := []interface{}{tg.tree(1, ct, "LineString"), tg.tree(1, ct, "Point"), tg.tree(1, ct, "LineString")}
+			if r.Intn(2) == 0 {
+				ms = append(ms, tg.tree(1, ct, "Polygon"))
+			}
+			c["start"] = T{"t": "GeometryCollection", "ct": ctName(ct), "c": ms}
+			c["hist"] = 6
+			safe := []string{"reverse", "swapxy", "force2d", "wkb", "wkt", "densify", "forcecw", "viactor", "mkgc1"}
+			st := []interface{}{T{"act": "nop", "arg": T{"ct": ""}}, T{"act": "nop", "arg": T{"ct": ""}}}
+			for k, m := 0, r.Intn(4); k < m; k++ {
+				st = append(st, T{"act": safe[r.Intn(len(safe))], "arg": T{"ct": ""}})
+			}
+			c["steps"] = st
+		} else if r.Intn(4) == 0 {
+			c["hist"] = []int{6, 6, 1, 5}[r.Intn(4)]
+			c["steps"] = append([]interface{}{T{"act": "nop", "arg": T{"ct": ""}}, T{"act": "nop", "arg": T{"ct": ""}}}, steps...)
+		}
 		if tg.sliver {
 			c["sliver"] = true
 		}
